@@ -168,3 +168,59 @@ Proof.
     destruct (nodupb str_eqb (port_base_names d)) eqn:N; [|discriminate E] end.
   apply ParseProofs.nodupb_NoDup. exact N.
 Qed.
+
+(* ------------------------------------------------------------------ the AXI configuration records *)
+(* AxiCfg (axi) / AxiCfgN, AxiCfgW (narrow-wide): address, data and user width are those of EVERY protocol of that kind
+   (they all agree: parse_desc_ok, parse_desc_widths), the two id widths are those of an input and of an output protocol
+   of that kind that an endpoint really uses *)
+Definition cfg_field (fields : list (string * Z)) (k : string) : option Z := option_map snd (find (fun f => str_eqb (fst f) k) fields).
+
+Theorem axi_cfgs_agree v d g c axi :
+  parse_desc v = Ok d -> compile d g = Ok c -> emit_axi_cfgs c = Ok axi ->
+  forall name fields, In (name, fields) axi ->
+    exists kind pi po, In pi (d_protos d) /\ In po (d_protos d) /\
+      (if d_nw d then (name = "AxiCfgN" /\ kind = "narrow") \/ (name = "AxiCfgW" /\ kind = "wide") else name = "AxiCfg") /\
+      (d_nw d = true -> of_kind kind pi = true /\ of_kind kind po = true) /\
+      cfg_field fields "InIdWidth" = Some (p_id pi) /\ cfg_field fields "OutIdWidth" = Some (p_id po) /\
+      forall p, In p (d_protos d) -> (d_nw d = true -> of_kind kind p = true) ->
+        cfg_field fields "AddrWidth" = Some (p_addr p) /\ cfg_field fields "DataWidth" = Some (p_data p) /\
+        cfg_field fields "UserWidth" = Some (p_user p).
+Proof.
+  intros Hp Hc Ha name fields Hin.
+  assert (Hcd : c_desc c = d) by (unfold compile in Hc; inv_bind Hc; inversion Hc; reflexivity).
+  destruct (parse_desc_ok v d Hp) as (_ & _ & _ & _ & Haddr & _).
+  destruct (parse_desc_widths v d Hp) as (Wa & Wn).
+  unfold emit_axi_cfgs in Ha. rewrite Hcd in Ha.
+  assert (Ffind : forall kind dir p, first_proto c kind dir = Some p ->
+            In p (d_protos d) /\ match kind with Some k => of_kind k p = true | None => True end).
+  { intros kind dir p Hf. unfold first_proto in Hf. rewrite Hcd in Hf. apply find_some in Hf. destruct Hf as (Hi & Hq). split; [exact Hi|].
+    destruct kind as [k|]; [|exact I]. destruct (proto_dir c p); [|discriminate]. apply andb_true_iff in Hq. destruct Hq as (_ & Hq).
+    unfold of_kind. exact Hq. }
+  destruct (d_nw d) eqn:Enw.
+  - destruct (first_proto c (Some "narrow") "input") as [ni_|] eqn:F1; [|discriminate].
+    destruct (first_proto c (Some "narrow") "output") as [no_|] eqn:F2; [|discriminate].
+    destruct (first_proto c (Some "wide") "input") as [wi_|] eqn:F3; [|discriminate].
+    destruct (first_proto c (Some "wide") "output") as [wo_|] eqn:F4; [|discriminate].
+    inversion Ha; subst axi; clear Ha.
+    destruct (Ffind _ _ _ F1) as (I1 & K1). destruct (Ffind _ _ _ F2) as (I2 & K2).
+    destruct (Ffind _ _ _ F3) as (I3 & K3). destruct (Ffind _ _ _ F4) as (I4 & K4).
+    destruct (Wn eq_refl) as (_ & Wk).
+    destruct Hin as [Hin|[Hin|[]]]; unfold axi_cfg in Hin; inversion Hin; subst name fields; clear Hin.
+    + exists "narrow", ni_, no_. repeat split; auto. 
+      * rewrite (Haddr p ni_ H I1). reflexivity.
+      * destruct (Wk "narrow" (or_introl eq_refl) p ni_ H I1 (H0 eq_refl) K1) as (A & _). cbn. rewrite A. reflexivity.
+      * destruct (Wk "narrow" (or_introl eq_refl) p ni_ H I1 (H0 eq_refl) K1) as (_ & B). cbn. rewrite B. reflexivity.
+    + exists "wide", wi_, wo_. repeat split; auto.
+      * rewrite (Haddr p wi_ H I3). reflexivity.
+      * destruct (Wk "wide" (or_intror eq_refl) p wi_ H I3 (H0 eq_refl) K3) as (A & _). cbn. rewrite A. reflexivity.
+      * destruct (Wk "wide" (or_intror eq_refl) p wi_ H I3 (H0 eq_refl) K3) as (_ & B). cbn. rewrite B. reflexivity.
+  - destruct (first_proto c None "input") as [i_|] eqn:F1; [|discriminate].
+    destruct (first_proto c None "output") as [o_|] eqn:F2; [|discriminate].
+    inversion Ha; subst axi; clear Ha.
+    destruct (Ffind _ _ _ F1) as (I1 & _). destruct (Ffind _ _ _ F2) as (I2 & _).
+    destruct Hin as [Hin|[]]. unfold axi_cfg in Hin. inversion Hin; subst name fields; clear Hin.
+    exists "", i_, o_. repeat split; auto; try discriminate.
+    + rewrite (Haddr p i_ H I1). reflexivity.
+    + destruct (Wa eq_refl p i_ H I1) as (A & _). cbn. rewrite A. reflexivity.
+    + destruct (Wa eq_refl p i_ H I1) as (_ & B). cbn. rewrite B. reflexivity.
+Qed.
